@@ -71,6 +71,9 @@ def pendingFlagsJ (x : NodeC N) : List Bool :=
 
 inductive InputJ (N : Nat)
 | hup | prop (vs : List Nat) | selfAck | beat | restart (a : Nat) | applyTo (k : Nat) | advance (o : Nat) | recv (m : Msg1 N)
+/-- the transport's reports (`RawNode.ReportSnapshot` / `ReportUnreachable`), as in `RS.Input`: they move only the leader's `Progress`
+    bookkeeping (`RS.reportProg`), nothing of the node -/
+| snapStatus (src : Fin N) (failed : Bool) | unreachable (src : Fin N)
 
 /-- the ids whose `Progress` the Changer DELETES at some point while it works through the changes of one conf-change entry
     (`Changer.remove`: `delete(prs, id)` unless the id is still an outgoing voter).  A later change of the same entry may give such an
@@ -160,6 +163,8 @@ def handleJ (c0 : RQJ.Config) (i : Fin N) (x : NodeC N) : InputJ N â†’ NodeC N Ã
 | .selfAck =>
     if x.n.role = .leader then ({ x with n := maybeCommitJ (cfgOf c0 x) (ackC (cfgOf c0 x) x.n i x.n.log.length) }, []) else (x, [])
 | .beat => (x, [])
+| .snapStatus _ _ => (x, [])
+| .unreachable _ => (x, [])
 | .restart a => ({ n := stepDownN x.n, applied := a, pend := 0 }, [])
 | .applyTo k => (applyToJ c0 i x k, [])
 | .advance o =>
